@@ -2,6 +2,7 @@ package main
 
 import (
 	"fmt"
+	"go/ast"
 	"go/types"
 	"sort"
 	"strings"
@@ -39,7 +40,58 @@ func (f *Frame) invEnv(l *Loop, phis map[string]*SV, st *State) *Env {
 	for k, v := range phis {
 		env.names[k] = v
 	}
+	// other local variables: the value the debug information associates with
+	// the name at the closest point that dominates the loop header
+	hn := f.headerNode(l, st)
+	env.lookup = func(name string) *SV {
+		if hn == nil {
+			return nil
+		}
+		for b := l.Header; b != nil; b = b.Idom() {
+			instrs := b.Instrs
+			for k := len(instrs) - 1; k >= 0; k-- {
+				d, ok := instrs[k].(*ssa.DebugRef)
+				if !ok {
+					continue
+				}
+				id, isId := d.Expr.(*ast.Ident)
+				if !isId || id.Name != name {
+					continue
+				}
+				if b == l.Header {
+					if _, isPhi := d.X.(*ssa.Phi); !isPhi {
+						continue // defined inside the loop body part of the header
+					}
+				}
+				if l.Body[b] && b != l.Header {
+					continue
+				}
+				defer func() { recover() }()
+				v := f.get(d.X, hn)
+				if d.IsAddr {
+					pt, isPtr := v.T.Underlying().(*types.Pointer)
+					if !isPtr {
+						return nil
+					}
+					return f.vc.loadPure(env.st, v, pt.Elem())
+				}
+				return v
+			}
+		}
+		return nil
+	}
 	return env
+}
+
+// headerNode finds the node of the loop header whose execution is in progress.
+func (f *Frame) headerNode(l *Loop, st *State) *Node {
+	var best *Node
+	for _, n := range f.g.Order {
+		if n.B == l.Header && n.Reach != "" {
+			best = n
+		}
+	}
+	return best
 }
 
 func headerPhis(l *Loop) []*ssa.Phi {
@@ -119,6 +171,14 @@ func (vc *VC) cutLoop(f *Frame, l *Loop, n *Node) {
 	env2 := f.invEnv(l, newVals, n.St)
 	for _, c := range l.Ann.Inv {
 		env2.assumeClause(n.Reach, c.E)
+	}
+	if l.Ann.Decr != nil {
+		// termination measure at the loop head (signed 64-bit)
+		m := env2.eval(l.Ann.Decr.E)
+		if f.measures == nil {
+			f.measures = map[*Loop]string{}
+		}
+		f.measures[l] = vc.defS(SBV64, env2.toBV64(m), "measure")
 	}
 	vc.cover("cover-loop", fmt.Sprintf("loop %d of %s: invariant satisfiable at an arbitrary iteration", l.Ordinal, f.fn.Name()), n.Reach)
 }
@@ -256,6 +316,12 @@ func (vc *VC) checkInvariant(f *Frame, l *Loop, from *Node, predIdx int, cond, w
 		}
 	}
 	env := f.invEnv(l, vals, from.St)
+	if l.Ann.Decr != nil && f.measures[l] != "" {
+		m1 := env.toBV64(env.eval(l.Ann.Decr.E))
+		m0 := f.measures[l]
+		vc.oblige("loop-decreases", fmt.Sprintf("loop %d of %s: the termination measure (%s) does not decrease or is not bounded below", l.Ordinal, f.fn.Name(), l.Ann.Decr.Text),
+			cond, and(app("bvslt", m1, m0), app("bvsge", m0, bvLit(64, 0))), "@loop", "@progress")
+	}
 	for i, c := range l.Ann.Inv {
 		vc.oblige("loop-inv-"+what, fmt.Sprintf("invariant %d of loop %d of %s is not %s by the body: %s", i, l.Ordinal, f.fn.Name(), what, c.Text),
 			cond, env.evalGoal(c.E), append([]string{"@loop"}, c.Tags...)...)
@@ -509,6 +575,17 @@ func (eng *Engine) modEffects(fn *ssa.Function, fc *FuncContract, m Clause, e ef
 			return
 		case "stream":
 			e["Spos"], e["Sfail"] = true, true
+			return
+		case "file":
+			e["Fdata"], e["Flen"], e["Fpos"] = true, true, true
+			return
+		case "Fpos", "Flen":
+			e[x.Fn] = true
+			return
+		case "map":
+			for k := range mapKeys() {
+				e[k] = true
+			}
 			return
 		case "sink":
 			e["Wout"], e["Wlen"], e["Wfail"] = true, true, true
